@@ -240,16 +240,14 @@ func checkC05(c *Ctx, r *Report) {
 			}
 			q := &Cut{Fn: f, Target: inSet(gos), Sep: inc, Assume: map[ssa.Value]bool{consume: true}}
 			r3.mustPass(f, dl("addCheckFdLimit")+": [FD-consuming address] the dial starts only after taking an FD token", q, 1)
-			r3.guard(f, "take FD token", findInstrs(f, inc), "fdConsuming < fdLimit", edgeCmp(func(b *ssa.BinOp) bool {
-				return b.Op == token.GEQ && isLoadOfField(dlT + ".fdConsuming")(strip2(b.X)) && isLoadOfField(dlT + ".fdLimit")(strip2(b.Y))
-			}, false), nil)
+			isFdC := func(v ssa.Value) bool { return isLoadOfField(dlT + ".fdConsuming")(strip2(v)) }
+			isFdL := func(v ssa.Value) bool { return isLoadOfField(dlT + ".fdLimit")(strip2(v)) }
+			r3.guard(f, "take FD token", findInstrs(f, inc), "fdConsuming < fdLimit", edgeExcl(isFdC, isFdL, ordEQ, ordGT), nil)
 			// over the limit: queued, not started
 			var over []CFGEdge
 			for _, b := range f.Blocks {
 				for s := range b.Succs {
-					if edgeCmp(func(bo *ssa.BinOp) bool {
-						return bo.Op == token.GEQ && isLoadOfField(dlT + ".fdConsuming")(strip2(bo.X)) && isLoadOfField(dlT + ".fdLimit")(strip2(bo.Y))
-					}, true)(b, s) {
+					if edgeExcl(isFdC, isFdL, ordLT)(b, s) {
 						over = append(over, CFGEdge{b, s})
 					}
 				}
@@ -268,9 +266,19 @@ func checkC05(c *Ctx, r *Report) {
 			w, n := (&Cut{Fn: f, Target: isInstr(cl), Sep: incP}).Run(c)
 			r3.Check(w == "", dl("addCheckPeerLimit")+": FD stage only after taking the peer token", instrPos(cl), n+1, "", "", w)
 		}
-		r3.guard(f, "take peer token", findInstrs(f, incP), "activePerPeer[p] < perPeerLimit", edgeCmp(func(b *ssa.BinOp) bool {
-			return b.Op == token.GEQ && isLoadOfField(dlT + ".perPeerLimit")(strip2(b.Y))
-		}, false), nil)
+		isActive := func(v ssa.Value) bool {
+			v = strip2(v)
+			if lk, ok := v.(*ssa.Lookup); ok {
+				return isLoadOfField(dlT + ".activePerPeer")(strip2(lk.X))
+			}
+			if ex, ok := v.(*ssa.Extract); ok {
+				if lk, ok := ex.Tuple.(*ssa.Lookup); ok && ex.Index == 0 {
+					return isLoadOfField(dlT + ".activePerPeer")(strip2(lk.X))
+				}
+			}
+			return false
+		}
+		r3.guard(f, "take peer token", findInstrs(f, incP), "activePerPeer[p] < perPeerLimit", edgeExcl(isActive, func(v ssa.Value) bool { return isLoadOfField(dlT + ".perPeerLimit")(strip2(v)) }, ordEQ, ordGT), nil)
 	}
 	if f := r3.need(dl("freePeerToken")); f != nil {
 		// waiter taken off the peer wait list re-takes the token before the FD stage
